@@ -76,7 +76,7 @@ class Contract:
                  ensures=None, modifies=(), loops=None, inline=False,
                  local_shapes=None, split=False, ghost=None, facts=None,
                  unroll_limit=200, use_contracts=(), scalars=None, notes="",
-                 tag="", fixed=None, after=None, hints=None, macros=None, gen=None, interp=None, lib="phonopy"):
+                 tag="", fixed=None, after=None, hints=None, macros=None, gen=None, interp=None, lib="phonopy", auto_range=False, race=False):
         self.file = file
         self.func = func
         self.shapes = shapes or {}
@@ -100,6 +100,8 @@ class Contract:
         self.gen = gen                 # callable(random.Random) -> dict of concrete inputs (replay only)
         self.interp = interp           # callable(harness, evaluator, env) -> {spec function name: python callable}
         self.lib = lib
+        self.auto_range = auto_range   # symbolic for-loops without an entry get the invariant v >= init
+        self.race = race               # generate OpenMP race-freedom obligations for parallel loops
 
     def instance(self, tag=None, **fixed):
         import copy
